@@ -20,6 +20,7 @@ SHARDS = {"quick": 12, "thorough": 16}
 WATCHDOG = {"quick": 1500, "thorough": 3300}
 REQUIRED_CLASSES = {t: ["batch:2..6_points", "batch:uniform_G", "batch:per_point_G", "batch:ratios_differ", "batch:dyadic_ratio",
                         "refine:interior", "refine:trailing", "mono:scale", "mono:R_z", "mono:P_A", "quantiles",
+                        "load_scatter:normal", "load_scatter:lognormal", "load_scatter:unknown",
                         "material:Steel", "material:Al_wrought"]
                     for t in ("quick", "thorough")}
 REQUIRED_MONITORS = ["batch==single:P_RAM_lifetime", "batch==single:P_RAJ_lifetime", "batch==single:infinite_life_verdicts",
@@ -56,11 +57,17 @@ def finish(ctx):
 def params(rng):
     group = ["Steel", "SteelCast", "Al_wrought"][int(rng.integers(0, 3))]
     Rm = float({"Steel": rng.uniform(350, 1200), "SteelCast": rng.uniform(350, 900), "Al_wrought": rng.uniform(200, 500)}[group])
-    return {"MatGroupFKM": group, "FinishingFKM": "none", "R_m": round(Rm, 1), "R_z": float(rng.choice([0.0, 10.0, 50.0, 250.0])),
-            "P_A": float(rng.choice(PA_VALUES)), "P_L": float(rng.choice([2.5, 50.0])), "c": 1.0,
-            "A_sigma": float(rng.uniform(50, 800)), "A_ref": 500.0, "G": float(rng.uniform(0.02, 1.5)),
-            "s_L": float(rng.choice([0.0, 5.0, 10.0])), "K_p": float(rng.choice([1.5, 2.0, 3.5])),
-            "n_bins": 200, "max_load_independently_for_nodes": True}
+    ap = {"MatGroupFKM": group, "FinishingFKM": "none", "R_m": round(Rm, 1), "R_z": float(rng.choice([0.0, 10.0, 50.0, 250.0])),
+          "P_A": float(rng.choice(PA_VALUES)), "P_L": float(rng.choice([2.5, 50.0])), "c": 1.0,
+          "A_sigma": float(rng.uniform(50, 800)), "A_ref": 500.0, "G": float(rng.uniform(0.02, 1.5)),
+          "K_p": float(rng.choice([1.5, 2.0, 3.5])), "n_bins": 200, "max_load_independently_for_nodes": True}
+    # the three documented descriptions of the load scatter: normal (s_L), log-normal (LSD_s), unknown (neither)
+    kind = int(rng.integers(0, 3))
+    if kind == 0:
+        ap["s_L"] = float(rng.choice([0.0, 5.0, 10.0]))
+    elif kind == 1:
+        ap["LSD_s"] = float(rng.choice([0.01, 0.04, 0.1]))
+    return ap
 
 
 def sequence(rng, Rm):
@@ -193,6 +200,7 @@ def _run_case(case, ctx):
     rng = np.random.Generator(np.random.PCG64(case["rseed"]))
     ap, seq = dict(case["ap"]), case["seq"]
     ctx.tag(f"material:{ap['MatGroupFKM']}")
+    ctx.tag("load_scatter:normal" if "s_L" in ap else ("load_scatter:lognormal" if "LSD_s" in ap else "load_scatter:unknown"))
     kind = case["kind"]
     if kind == "batch":
         k = int(rng.integers(2, 7))
@@ -297,7 +305,8 @@ def _run_case(case, ctx):
         ap_p = dict(ap)
         lower = [p for p in PA_VALUES if p < ap["P_A"]]
         if lower:
-            ap_p["P_A"] = float(lower[int(rng.integers(0, len(lower)))])
+            # mostly the neighbouring entry of the guideline's table (where a non-monotone safety factor shows), else any lower one
+            ap_p["P_A"] = float(max(lower) if rng.random() < 0.7 else lower[int(rng.integers(0, len(lower)))])
             r_p = assess(ap_p, single(seq))
         else:
             r_p = None
@@ -339,6 +348,7 @@ def _run_case(case, ctx):
         ap_q = dict(ap)
         ap_q["P_A"], ap_q["P_L"] = 0.5, 50.0
         ap_q.pop("s_L", None)
+        ap_q.pop("LSD_s", None)
         rq = assess(ap_q, single(seq))
         for pre in ("P_RAM", "P_RAJ"):
             if f"{pre}_lifetime_N_10" in rq:
